@@ -91,7 +91,10 @@ def parseTextNum (s : String) : Option (Q × Q) :=
 /-- does the text number agree with the CSV number to the printed precision? -/
 def numAgree (text csv : String) : Bool :=
   match parseTextNum text, parseCsvNum csv with
-  | some (t, h), some c => ((t.sub c).abs).le (h.add (c.abs.mul ⟨1, 2 ^ 52⟩))
+  | some (t, h), some c =>
+    -- … and without loss: a non-zero measurement is never printed as zero (the row scale is chosen
+    -- from the smallest non-zero magnitude, so every non-zero value keeps significant digits)
+    ((t.sub c).abs).le (h.add (c.abs.mul ⟨1, 2 ^ 52⟩)) && (c.num == 0 || t.num != 0)
   | _, _ => text == csv   -- +Inf, NaN: literal agreement
 
 /-! ### CSV -/
